@@ -685,6 +685,7 @@ START_NORMALISE = ["if events is None:\n    events = {}", "if isinstance(events,
 LATENCY_TEST = "self.output_device is not None and self.output_device.added_latency_seconds > 0.0"
 LATENCY_BEATS = "self.timeline.seconds_to_beats(self.output_device.added_latency_seconds)"
 START_CLOSURE = "lambda: self.start(events, interpolate=interpolate)"
+START_INTERP_RESET = ["self.next_event = None", "self.interpolating_event = PSequence([], 0)"]
 
 
 def gen_track_start(cls):
@@ -698,8 +699,14 @@ def gen_track_start(cls):
     if [ast.unparse(x) for x in body[:2]] != START_NORMALISE:
         raise Reject("Track.start: the normalisation of `events` is not the one the translation skips")
     b = TBlock(fn, reserved=RESERVED - {"c"})
+    rest = body[2:]
+    # since repair 312ab97 (C05-interp-update-leak) start() also forgets the interpolation state of the old stream (`next_event`,
+    # `interpolating_event`): fields of the interpolating branch, which Sched/Model.v (the non-interpolating track) does not have -
+    # accepted by exact text and skipped, like the else branch of Track.tick (their model is Sched/Interp.v / UpdateMode.v)
+    if [ast.unparse(x) for x in rest[-2:]] == START_INTERP_RESET:
+        rest = rest[:-2]
     # interpolate: None (the model is the non-interpolating track)
-    term = b.run(body[2:], {"self": ("track", "self"), "events": ("stream", "events"), "interpolate": ("none", "None")}, lambda e: e["self"][1])
+    term = b.run(rest, {"self": ("track", "self"), "events": ("stream", "events"), "interpolate": ("none", "None")}, lambda e: e["self"][1])
     return term, lines_of(fn)
 
 
